@@ -104,7 +104,13 @@ ArgFrames(n) ==
    Frame("arg_bid_hash", n, 0, H, TrueBid, H, "B", Chain, SX0),
    Frame("arg_bid_psh", n, 0, H, TrueBid, H, "Ap", Chain, SX0),
    Frame("arg_bid_zero", n, 0, H, TrueBid, H, ZeroBid, Chain, SX0),
-   Frame("long", n + 1, 0, H, TrueBid, H, TrueBid, Chain, SX0)}
+   Frame("long", n + 1, 0, H, TrueBid, H, TrueBid, Chain, SX0),
+   \* incomplete id with part-set total 0, nil signatures flagged "commit"
+   Frame("incomplete_bid0_nil_sigs", n, 0, H, "Aj", H, "Aj", Chain, [SX0 EXCEPT !.bid = ZeroBid]),
+   \* signatures really made over the incomplete id: these do count
+   Frame("incomplete_bid_own_sigs", n, 0, H, "Ai", H, "Ai", Chain, [SX0 EXCEPT !.bid = "Ai"]),
+   \* complete commit, the caller passes the incomplete id of the same hash
+   Frame("arg_bid_incomplete", n, 0, H, TrueBid, H, "Ai", Chain, SX0)}
   \cup (IF n >= 1 THEN {Frame("short", n - 1, 0, H, TrueBid, H, TrueBid, Chain, SX0)} ELSE {})
 \* frames in which arguments and commit agree but the commit (or the chain id) is not what was signed
 CommitFrames(n) ==
@@ -115,7 +121,12 @@ CommitFrames(n) ==
    Frame("commit_psh_lie", n, 0, H, "Ap", H, "Ap", Chain, SX0),
    \* commit for the zero block id: for-block and nil votes have the same sign bytes
    Frame("zero_bid", n, 0, H, ZeroBid, H, ZeroBid, Chain, [SX0 EXCEPT !.bid = ZeroBid]),
-   Frame("arg_chain", n, 0, H, TrueBid, H, TrueBid, "chain2", SX0)}
+   Frame("arg_chain", n, 0, H, TrueBid, H, TrueBid, "chain2", SX0),
+   \* the commit (and the caller) name an INCOMPLETE block id -- hash present, part-set header empty -- and is
+   \* populated with the nil precommits of a timed-out round flagged "commit" ...
+   Frame("incomplete_bid_nil_sigs", n, 0, H, "Ai", H, "Ai", Chain, [SX0 EXCEPT !.bid = ZeroBid]),
+   \* ... or with signatures over the complete id of the same hash
+   Frame("incomplete_bid_complete_sigs", n, 0, H, "Ai", H, "Ai", Chain, SX0)}
   \* the commit's slot order is a rotation of the set's order (a commit of another validator set)
   \cup (IF n >= 2 THEN {Frame("rot", n, 1, H, TrueBid, H, TrueBid, Chain, SX0)} ELSE {})
 
